@@ -1,2 +1,96 @@
--- stub: replaced by the model driver of this property
-def main : IO Unit := pure ()
+import SdcModel.Basic.Io
+import SdcModel.Basic.HttpIo
+import SdcModel.Http
+open Sdc Sdc.Http Sdc.HttpIo
+
+/-- toy codec of the correspondence runs (the harness installs the same one in `CompressionHandler.handlers`):
+    `enc x = tag :: reverse x`; `dec` rejects anything that does not start with the tag -/
+def toyCodec (tag : Nat) : Codec where
+  enc x := tag :: x.reverse
+  dec
+    | t :: y => if t = tag then some y.reverse else none
+    | [] => none
+
+structure St where
+  w : Nat := 16
+  reg : Registry := ⟨[], []⟩
+
+def errName : Err → String
+  | .dechunk => "DechunkError" | .decompress => "DecompressError" | .compression => "CompressionError"
+  | .codec => "CodecError" | .value => "ValueError" | .type => "TypeError" | .fuel => "FUEL"
+
+def showOptBytes : Option Bytes → String
+  | none => "none"
+  | some b => hex b
+
+def showCl : Option ClVal → String
+  | none => "~" | some .empty => "-" | some .bad => "bad" | some (.val n) => toString n
+
+def showOptStr : Option Str → String
+  | none => "~" | some s => showStr s
+
+def showMsg : Except Err (Hdrs × Bytes) → String
+  | .error e => "err " ++ errName e
+  | .ok (h, wire) => s!"ok te={showOptStr h.transferEncoding} cl={showCl h.contentLength} ce={showOptStr h.contentEncoding} ae={showOptStr h.acceptEncoding} {hex wire}"
+
+def cl? (s : String) : Option (Option ClVal) :=
+  if s = "~" then some none else if s = "-" then some (some .empty) else if s = "bad" then some (some .bad)
+  else (int? s).map (fun n => some (.val n))
+
+def showBody : Except Err (Option Bytes) → String
+  | .error e => "err " ++ errName e
+  | .ok b => "ok " ++ showOptBytes b
+
+/-- ops (see harness/props/c17.py):
+  `window w` · `handler name tag` · `avail names` · `resetreg`
+  `mk n hex` · `dechunk hex` · `wf hex` · `int16 hex` · `ae str` · `choose str names`
+  `req te cl ce sup hex` · `resp cl ce sup hex` · `send sup reqencs chunk hex` · `respond sup chunk ae hex` -/
+def stepLine (st : St) (line : String) : St × String :=
+  match Io.words line with
+  | ["window", w] => match w.toNat? with
+    | some k => ({ st with w := k }, "ok")
+    | none => (st, "bad-op")
+  | ["resetreg"] => ({ st with reg := ⟨[], []⟩ }, "ok")
+  | ["handler", name, tag] => match str? name, tag.toNat? with
+    | some n, some t => ({ st with reg := { st.reg with handlers := st.reg.handlers ++ [(n, toyCodec t)] } }, "ok")
+    | _, _ => (st, "bad-op")
+  | ["avail", names] => match strList? names with
+    | some l => ({ st with reg := { st.reg with available := l } }, "ok")
+    | none => (st, "bad-op")
+  | ["mk", n, h] => match n.toNat?, unhex h with
+    | some n, some b => (st, hex (mkChunks n b))
+    | _, _ => (st, "bad-op")
+  | ["dechunk", h] => match unhex h with
+    | some s => (st, match dechunk st.w s with
+      | .ok (b, r) => s!"ok {hex b} {r.length}"
+      | .error e => "err " ++ errName e)
+    | none => (st, "bad-op")
+  | ["wf", h] => match unhex h with
+    | some s => (st, toString (isChunkedBody s))
+    | none => (st, "bad-op")
+  | ["int16", h] => match unhex h with
+    | some s => (st, match ChunkHex.pyIntHex s with | some v => s!"ok {v}" | none => "err")
+    | none => (st, "bad-op")
+  | ["ae", h] => match str? h with
+    | some s => (st, showStrList (parseHeader s))
+    | none => (st, "bad-op")
+  | ["choose", h, sup] => match optStr? h, strList? sup with
+    | some s, some l => (st, match choose (parseHeader (s.getD [])) l with | some c => "ok " ++ showStr c | none => "none")
+    | _, _ => (st, "bad-op")
+  | ["req", te, cl, ce, sup, wire] => match optStr? te, cl? cl, optStr? ce, strList? sup, unhex wire with
+    | some te, some cl, some ce, some sup, some wire =>
+      (st, showBody (readRequestBody st.w st.reg sup { transferEncoding := te, contentLength := cl, contentEncoding := ce } wire))
+    | _, _, _, _, _ => (st, "bad-op")
+  | ["resp", cl, ce, sup, payload] => match cl? cl, optStr? ce, strList? sup, unhex payload with
+    | some cl, some ce, some sup, some p =>
+      (st, showBody (readResponseBody st.reg sup { contentLength := cl, contentEncoding := ce } p))
+    | _, _, _, _ => (st, "bad-op")
+  | ["send", sup, reqencs, chunk, xml] => match strList? sup, strList? reqencs, chunk.toNat?, unhex xml with
+    | some sup, some re, some c, some x => (st, showMsg (sendRequest st.reg sup re c x))
+    | _, _, _, _ => (st, "bad-op")
+  | ["respond", sup, chunk, ae, body] => match strList? sup, chunk.toNat?, optStr? ae, unhex body with
+    | some sup, some c, some ae, some b => (st, showMsg (respond st.reg sup c ae b))
+    | _, _, _, _ => (st, "bad-op")
+  | _ => (st, "bad-op")
+
+def main : IO Unit := Io.lineLoop stepLine {}
